@@ -3,13 +3,14 @@
 package ecmascript
 
 var verifHarnesses = map[string]func(){
-	"VerifC08Exec":      VerifC08Exec,
-	"VerifC08Step":      VerifC08Step,
-	"VerifC10Caller":    VerifC10Caller,
-	"VerifC09":          VerifC09,
-	"VerifC09Error":     VerifC09Error,
-	"VerifC18Script":    VerifC18Script,
-	"VerifC11":          VerifC11,
-	"VerifC11Step":      VerifC11Step,
-	"VerifC10Isolation": VerifC10Isolation,
+	"VerifC08Exec":       VerifC08Exec,
+	"VerifC08Step":       VerifC08Step,
+	"VerifC10Caller":     VerifC10Caller,
+	"VerifC09":           VerifC09,
+	"VerifC09Error":      VerifC09Error,
+	"VerifC18Script":     VerifC18Script,
+	"VerifC11":           VerifC11,
+	"VerifC11Step":       VerifC11Step,
+	"VerifC10Concurrent": VerifC10Concurrent,
+	"VerifC10Isolation":  VerifC10Isolation,
 }
